@@ -211,6 +211,27 @@ def draw(rnd, max_sessions=3, max_segments=4):
             if rnd.random() < 0.2:
                 rnd.shuffle(seg)
             sess.append(seg)
+            # now and then the next call lists exactly the same objects in another order, with fresh data of the same kinds
+            # (two segments that differ only in the order of their objects)
+            chs = [ob for ob in seg if ob[0] == "C"]
+            if len(chs) >= 2 and rnd.random() < 0.25:
+                again = []
+                for ob in seg:
+                    if ob[0] != "C":
+                        again.append(ob[:-1] + ([],))
+                        continue
+                    d = ob[3]
+                    if d[0] == "K":
+                        d = ("K", d[1], rand_array(rnd, d[1], len(d[2])))
+                    elif d[0] == "S":
+                        d = ("S", ["".join(rnd.choice("pqü") for _ in range(rnd.randint(0, 3))) for _ in d[1]], d[2])
+                    elif d[0] == "D":
+                        d = ("D", [rand_micros(rnd) for _ in d[1]], d[2])
+                    again.append(("C", ob[1], ob[2], d, []))
+                rest = [ob for ob in again if ob[0] != "C"]
+                perm = [ob for ob in again if ob[0] == "C"]
+                perm = perm[1:] + perm[:1] if rnd.random() < 0.5 else perm[::-1]
+                sess.append(rest + perm)
         prog.append(sess)
     return prog
 
